@@ -90,8 +90,38 @@ def genReuseCase (idx : Nat) : Gen Case := do
   pure { id := s!"C14-re-{idx}", cls := cls, kind := "eval", stratum := s!"reuse/{op}/{kindName k}",
          model := expect, spec := expect, payload := [s!"let c = {mid}; [{u1}, {u2}, c]"] }
 
+/-- strings over a non-ASCII alphabet (1-, 2- and 3-byte characters): the textbook functions work on characters,
+not bytes -/
+def ucp (k : Nat) : Nat := [97, 233, 26085].getD k 97
+def usrc (xs : List Nat) : String := "'" ++ String.ofList (xs.map (fun x => Char.ofNat (ucp x))) ++ "'"
+def uV (xs : List Nat) : V := V.mkSeq "@char" 0 (xs.map (fun x => some (.num (Int.ofNat (ucp x)))))
+def genUnicodeCase (idx : Nat) : Gen Case := do
+  let op ← pick ["contains", "has_prefix", "has_suffix", "split", "sub", "trim_prefix", "trim_suffix", "repeat", "join", "concat"]
+  let xs ← genXs 5 3
+  let p ← genPat xs 3
+  let nw ← genXs 2 3
+  let (src, v) : String × V := match op with
+    | "contains" => (s!"//seq.contains({usrc p}, {usrc xs})", V.bool (Spec.contains p xs))
+    | "has_prefix" => (s!"//seq.has_prefix({usrc p}, {usrc xs})", V.bool (Spec.hasPrefix p xs))
+    | "has_suffix" => (s!"//seq.has_suffix({usrc p}, {usrc xs})", V.bool (Spec.hasSuffix p xs))
+    | "split" => (s!"//seq.split({usrc p}, {usrc xs})",
+        if xs.isEmpty then (if p.isEmpty then V.none else V.mkArr [V.none]) else V.mkArr ((Spec.split p xs).map uV))
+    | "sub" => (s!"//seq.sub({usrc p}, {usrc nw}, {usrc xs})",
+        if xs.isEmpty then (if p.isEmpty then uV nw else V.none) else uV (Spec.sub p nw xs))
+    | "trim_prefix" => (s!"//seq.trim_prefix({usrc p}, {usrc xs})", uV (Spec.trimPrefix p xs))
+    | "trim_suffix" => (s!"//seq.trim_suffix({usrc p}, {usrc xs})", uV (Spec.trimSuffix p xs))
+    | "repeat" => (s!"//seq.repeat(2, {usrc xs})", uV (Spec.repeat_ 2 xs))
+    | "join" => (s!"//seq.join({usrc p}, [{usrc xs}, {usrc nw}, {usrc xs}])",
+        -- an empty joiner with an empty first element is KF-seq-join-empty-first: avoid that shape here
+        uV (Spec.join p [xs, nw, xs]))
+    | _ => (s!"//seq.concat([{usrc xs}, {usrc nw}])", uV (xs ++ nw))
+  let cls := if op == "join" && p.isEmpty && xs.isEmpty && !nw.isEmpty then "KF-seq-join-empty-first" else "good"
+  pure { id := s!"C14-u-{idx}", cls := cls, kind := "eval", stratum := s!"unicode/{op}",
+         model := v.canon, spec := v.canon, payload := [src] }
+
 def genCase (idx : Nat) (big : Bool) : Gen Case := do
   if (← chance 1 16) then return (← genSparseCase idx)
+  if (← chance 1 12) then return (← genUnicodeCase idx)
   if (← chance 1 10) then return (← genReuseCase idx)
   let op ← pick ops
   let alpha ← pick [2, 2, 3]
